@@ -60,8 +60,7 @@ def check_value(t, v, res, where):
             res.bad('%s: %s given for integer type %r' % (where, type(v).__name__ if not is_sym(v) else 'str/bytes', t))
             return
         lo, hi = RANGES[t]
-        if not (lo <= int(v) <= hi):
-            res.bad('%s: %r out of range for %r' % (where, v, t))
+        res.obligations.append((lo <= int(v) <= hi, '%s: value within %s range' % (where, t)))
         return
     if t == 'b':
         if isinstance(v, (SBool, SInt)) or isinstance(v, (bool, int)):
